@@ -52,7 +52,14 @@ def _ConvertFunctionType(ft: LinearIR.FunctionType) -> WebAssembly.FunctionType:
     resultTypes = []
 
     for argType in ft.Arguments.values():
+        # Only scalars can be passed, the structure types used for everything
+        # else are not valid in a signature
+        if not argType.IsScalar():
+            raise Exception(f"Unsupported parameter type: {argType}")
         argTypes.append(_ConvertType(argType))
+
+    if not (ft.ReturnType.IsScalar() or ft.ReturnType.IsVoid()):
+        raise Exception(f"Unsupported return type: {ft.ReturnType}")
 
     # A function returning nothing has no result type at all
     if not ft.ReturnType.IsVoid():
